@@ -42,6 +42,12 @@ def clean(name):
     return ''.join(out)
 
 
+def _is_range_full(f, op):
+    from mirlib import trace
+    r = trace(f, op)
+    return r[0] == 'agg' and str(r[2]['rhs']['kind'].get('adt', '')).endswith('ops::RangeFull')
+
+
 def sites(crate, roots):
     """list of (fn, kind, what, line)"""
     reach = crate.reachable_fns(roots, exclude=EXCLUDE_FNS)
@@ -50,6 +56,9 @@ def sites(crate, roots):
         for bi, t in f.calls():
             nm = f.callee_name(t)
             if PANIC_CALLS.search(nm):
+                # `v[..]` (indexing with RangeFull) cannot fail: the whole slice
+                if re.search(r'Index(Mut)?<.*>>::index(_mut)?$', nm) and len(t['args']) == 2 and _is_range_full(f, t['args'][1]):
+                    continue
                 out.append((f, 'call', clean(nm), t['line']))
         for bi in sorted(f.live_blocks()):
             t = f.blocks[bi]['term']
